@@ -368,9 +368,8 @@ PROPS = {
     },
     "C11": {
         "lean_modules": ["Dbg.Props.C11"],
-        "theorems": ["Kmer.C11_eq_iff", "Kmer.C11_lt_iff_lex", "Kmer.C11_history", "Kmer.C11_routes_agree", "Kmer.toNat_eq_val"],
-        "partial": ["C11_history covers extend_left/right, extend, rc, set_mut, set_slice_mut, min_rc from any starting word satisfying the "
-                    "invariant (from_bytes establishes it: C10_fromBytes); the from_u64/from_ascii constructors are not yet in the theorem"],
+        "theorems": ["Kmer.C11_constructors", "Kmer.C11_eq_iff", "Kmer.C11_lt_iff_lex", "Kmer.C11_history", "Kmer.C11_routes_agree", "Kmer.toNat_eq_val"],
+        "partial": [],
         "n_quick": 6000, "n_thorough": 400000,
         "nontrivial": lambda toks, impl: impl != "panic" and toks[4] != "-" and toks[4].count(",") >= 2, "tags": _c11_tags,
         "rule": "requests `<type> hist <init> <ops> <other>`: a k-mer of one of the 19 types built by from_bytes / from_u64 / from_ascii, then "
@@ -485,11 +484,9 @@ PROPS = {
     },
     "C05": {
         "lean_modules": ["Dbg.Props.C05"],
-        "theorems": ["Filter.C05_filter_eq_ref", "Filter.C05_pass_independent", "Filter.C05_keys_ascending", "Filter.C05_ranges_tile",
+        "theorems": ["Filter.C05_exts_are_flanks", "Filter.C05_table_wf", "Filter.C05_filter_eq_ref", "Filter.C05_pass_independent", "Filter.C05_keys_ascending", "Filter.C05_ranges_tile",
                      "Filter.C05_passes_le", "Filter.C05_range_shape", "Filter.C05_count_summary"],
-        "partial": ["exts_are_flanks / filter_WF_ExtSym (the extension set of a key is the union of the flanking bases of its observations; tables "
-                    "from reads are well-formed and reciprocal): not yet proved - the union is by definition of summarize, the flank "
-                    "characterisation of the (k-mer, exts) stream rests on C13's iterator theorem"],
+        "partial": [],
         "n_quick": 2500, "n_thorough": 150000,
         "nontrivial": lambda toks, impl: impl.startswith("passes=") and impl.split("|")[1].count(",") >= 1, "tags": _c05_tags,
         "shrink": _reads_shrink(10),
@@ -507,7 +504,7 @@ PROPS = {
     },
     "C01": {
         "lean_modules": ["Dbg.Props.C01"],
-        "theorems": ["Compress.C01_partition", "Compress.C01_node_assembly", "Compress.C01_nodes_are_id_paths", "Compress.C01_ids_partition",
+        "theorems": ["Compress.C01_from_reads", "Compress.C01_partition", "Compress.C01_node_assembly", "Compress.C01_nodes_are_id_paths", "Compress.C01_ids_partition",
                      "Compress.C01_walk_no_panic", "Compress.compress_components_concrete", "Walk.compress_components"],
         "partial": ["recorded-steps clause in its bit-level form (stepsOK: both k-mers of every node-internal step record the extension) - "
                     "evaluated on the crate's nodes; the from-slice / no-exts wrappers are tied by correspondence only"],
@@ -520,7 +517,7 @@ PROPS = {
     },
     "C02": {
         "lean_modules": ["Dbg.Props.C02"],
-        "theorems": ["Compress.C02_components_seq", "Compress.C02_components", "Compress.C02_link_sym", "Compress.linkOf_sym", "Compress.noPanic"],
+        "theorems": ["Compress.C02_from_reads", "Compress.C02_components_seq", "Compress.C02_components", "Compress.C02_link_sym", "Compress.linkOf_sym", "Compress.noPanic"],
         "partial": ["uniqueness up to cycle cut/orientation (C02_unique) is not stated separately; the executable componentsOK (good links recomputed "
                     "from the table by a definition independent of linkOf) is evaluated on the crate's nodes"],
         "n_quick": 3000, "n_thorough": 200000,
